@@ -885,12 +885,14 @@ fn spec_ids(content: &str) -> Option<Vec<String>> {
 struct Obs {
   /// (rule id, byte start, byte end) of every reported finding
   reported: Vec<(String, usize, usize)>,
+  /// the reported findings that must be / are in `ScanResult.diffs` (fixable rule and `separate_fix`)
+  diffs: Vec<(String, usize, usize)>,
   /// byte start of every comment reported as unused suppression
   unused: Vec<usize>,
 }
 
 /// what the property says must come out
-fn expected(grep: &Grep, rules: &[RuleConfig<SupportLang>], placed: &[Placed]) -> Obs {
+fn expected(grep: &Grep, rules: &[RuleConfig<SupportLang>], placed: &[Placed], sf: bool) -> Obs {
   let sup: Vec<&Placed> = placed.iter().filter(|c| c.content.contains(MARK)).collect();
   let governs = |c: &Placed, line: usize| if c.own_line { c.line + 1 == line } else { c.line == line };
   let names = |c: &Placed, id: &str| match spec_ids(&c.content) {
@@ -898,6 +900,7 @@ fn expected(grep: &Grep, rules: &[RuleConfig<SupportLang>], placed: &[Placed]) -
     Some(ids) => ids.iter().any(|x| x == id),
   };
   let mut reported = vec![];
+  let mut diffs = vec![];
   let mut used = vec![false; sup.len()];
   for r in rules {
     for nm in grep.root().find_all(&r.matcher) {
@@ -911,23 +914,29 @@ fn expected(grep: &Grep, rules: &[RuleConfig<SupportLang>], placed: &[Placed]) -
       }
       if !suppressed {
         reported.push((r.id.clone(), nm.range().start, nm.range().end));
+        // a finding is a finding wherever it is delivered: with `separate_fix` those of fixable
+        // rules travel in `diffs`
+        if sf && r.fix.is_some() {
+          diffs.push((r.id.clone(), nm.range().start, nm.range().end));
+        }
       }
     }
   }
   reported.sort();
+  diffs.sort();
   let mut unused: Vec<usize> = sup.iter().zip(&used).filter(|(_, u)| !**u).map(|(c, _)| c.start).collect();
   unused.sort();
-  Obs { reported, unused }
+  Obs { reported, diffs, unused }
 }
 
-/// what the implementation does (unused-suppression rule on, `separate_fix = false`)
-fn observed(grep: &Grep, rules: &[RuleConfig<SupportLang>]) -> Result<Obs, String> {
+/// what the implementation does (unused-suppression rule on); `matches` and `diffs` are both read
+fn observed(grep: &Grep, rules: &[RuleConfig<SupportLang>], sf: bool) -> Result<Obs, String> {
   let r = std::panic::catch_unwind(std::panic::AssertUnwindSafe(|| {
     let unused = CombinedScan::unused_config(Severity::Hint, *grep.lang());
     let mut scan = CombinedScan::new(rules.iter().collect());
     scan.set_unused_suppression_rule(&unused);
-    let res = scan.scan(grep, false);
-    let mut obs = Obs { reported: vec![], unused: vec![] };
+    let res = scan.scan(grep, sf);
+    let mut obs = Obs { reported: vec![], diffs: vec![], unused: vec![] };
     for (rule, nms) in &res.matches {
       for nm in nms {
         if std::ptr::eq(*rule, &unused) {
@@ -937,7 +946,16 @@ fn observed(grep: &Grep, rules: &[RuleConfig<SupportLang>]) -> Result<Obs, Strin
         }
       }
     }
+    for (rule, nm) in &res.diffs {
+      if std::ptr::eq(*rule, &unused) {
+        obs.unused.push(nm.range().start);
+      } else {
+        obs.reported.push((rule.id.clone(), nm.range().start, nm.range().end));
+        obs.diffs.push((rule.id.clone(), nm.range().start, nm.range().end));
+      }
+    }
     obs.reported.sort();
+    obs.diffs.sort();
     obs.unused.sort();
     obs
   }));
@@ -947,7 +965,7 @@ fn observed(grep: &Grep, rules: &[RuleConfig<SupportLang>]) -> Result<Obs, Strin
 /// Input classes, computed from the layout and the un-suppressed findings only (never from the
 /// implementation's output).  A class is attached only where it can matter for the property:
 /// the comment in question governs a finding it should silence, or is unused by the property text.
-fn classes(l: &LangSpec, grep: &Grep, rules: &[RuleConfig<SupportLang>], placed: &[Placed]) -> Vec<&'static str> {
+fn classes(l: &LangSpec, grep: &Grep, rules: &[RuleConfig<SupportLang>], placed: &[Placed], sf: bool) -> Vec<&'static str> {
   let mut v = vec![];
   let sup: Vec<&Placed> = placed.iter().filter(|c| c.content.contains(MARK)).collect();
   let gov = |c: &Placed| if c.own_line { c.line + 1 } else { c.line };
@@ -960,7 +978,11 @@ fn classes(l: &LangSpec, grep: &Grep, rules: &[RuleConfig<SupportLang>], placed:
   }
   // (rule id, line) of every finding without suppression
   let mut found: Vec<(String, usize)> = vec![];
+  let mut fixable: Vec<String> = vec![];
   for r in rules {
+    if r.fix.is_some() {
+      fixable.push(r.id.clone());
+    }
     for nm in grep.root().find_all(&r.matcher) {
       found.push((r.id.clone(), nm.start_pos().line()));
     }
@@ -972,6 +994,11 @@ fn classes(l: &LangSpec, grep: &Grep, rules: &[RuleConfig<SupportLang>], placed:
     let spec_used = governed.iter().any(|(id, _)| ids.as_ref().map_or(true, |v| v.contains(id)));
     if tail.contains(':') && ids.is_none() && !governed.is_empty() {
       v.push("colon-with-empty-id-list");
+    }
+    // fixes separated (interactive / --update-all): a finding of a FIXABLE rule that this comment
+    // governs and names travels through the `diffs` path of the scan
+    if sf && governed.iter().any(|(id, _)| fixable.contains(id) && ids.as_ref().map_or(true, |v| v.contains(id))) {
+      v.push(if c.own_line { "separate-fix fixable-rule own-line" } else { "separate-fix fixable-rule trailing" });
     }
     if c.style == Style::Block && tail.contains(':') {
       if let Some(last) = ids.as_ref().and_then(|v| v.last()) {
@@ -991,17 +1018,35 @@ fn classes(l: &LangSpec, grep: &Grep, rules: &[RuleConfig<SupportLang>], placed:
   v
 }
 
+#[derive(Clone)]
 struct OCase {
   lines: Vec<Ln>,
   active: Vec<usize>,
+  /// `separate_fix` of `CombinedScan::scan`
+  sf: bool,
+}
+
+thread_local! {
+  /// compiled rule sets, by (language, active rule indices)
+  static RULE_CACHE: std::cell::RefCell<HashMap<(String, Vec<usize>), std::rc::Rc<Vec<RuleConfig<SupportLang>>>>> =
+    std::cell::RefCell::new(HashMap::new());
+}
+
+fn cached_rules(l: &LangSpec, active: &[usize]) -> std::rc::Rc<Vec<RuleConfig<SupportLang>>> {
+  RULE_CACHE.with(|c| {
+    c.borrow_mut()
+      .entry((l.name.to_string(), active.to_vec()))
+      .or_insert_with(|| std::rc::Rc::new(load_rules(l, active)))
+      .clone()
+  })
 }
 
 fn check_case(l: &LangSpec, c: &OCase) -> Option<(Obs, Result<Obs, String>, String, Vec<Placed>)> {
   let (src, placed) = render(l, &c.lines);
-  let rules = load_rules(l, &c.active);
+  let rules = cached_rules(l, &c.active);
   let grep = l.lang.ast_grep(&src);
-  let want = expected(&grep, &rules, &placed);
-  let got = observed(&grep, &rules);
+  let want = expected(&grep, &rules, &placed, c.sf);
+  let got = observed(&grep, &rules, c.sf);
   if got.as_ref().ok() == Some(&want) {
     None
   } else {
@@ -1013,10 +1058,19 @@ fn check_case(l: &LangSpec, c: &OCase) -> Option<(Obs, Result<Obs, String>, Stri
 fn minimise(l: &LangSpec, mut c: OCase) -> OCase {
   loop {
     let mut progressed = false;
+    // the plain scan is the simpler input: keep `separate_fix` only when the failure needs it
+    if c.sf {
+      let mut t = c.clone();
+      t.sf = false;
+      if check_case(l, &t).is_some() {
+        c = t;
+        progressed = true;
+      }
+    }
     // rules
     let mut k = 0;
     while c.active.len() > 1 && k < c.active.len() {
-      let mut t = OCase { lines: c.lines.clone(), active: c.active.clone() };
+      let mut t = c.clone();
       t.active.remove(k);
       if check_case(l, &t).is_some() {
         c = t;
@@ -1028,7 +1082,7 @@ fn minimise(l: &LangSpec, mut c: OCase) -> OCase {
     // whole lines
     let mut k = 0;
     while k < c.lines.len() {
-      let mut t = OCase { lines: c.lines.clone(), active: c.active.clone() };
+      let mut t = c.clone();
       t.lines.remove(k);
       if check_case(l, &t).is_some() {
         c = t;
@@ -1040,7 +1094,7 @@ fn minimise(l: &LangSpec, mut c: OCase) -> OCase {
     // comments / statements / indentation inside a line
     for k in 0..c.lines.len() {
       for what in 0..4 {
-        let mut t = OCase { lines: c.lines.clone(), active: c.active.clone() };
+        let mut t = c.clone();
         let ln = &mut t.lines[k];
         let changed = match what {
           0 if !ln.cms.is_empty() && !(ln.stmts.is_empty() && ln.cms.len() == 1) => {
@@ -1081,7 +1135,7 @@ fn minimise(l: &LangSpec, mut c: OCase) -> OCase {
           alts.push(Cm { style: Style::Line, dir: cur.dir.clone() });
         }
         for alt in alts {
-          let mut t = OCase { lines: c.lines.clone(), active: c.active.clone() };
+          let mut t = c.clone();
           t.lines[k].cms[j] = alt;
           if check_case(l, &t).is_some() {
             c = t;
@@ -1111,19 +1165,45 @@ pub fn oracle(ctx: &Ctx, rng: &mut Rng, o: &mut Out) {
         Ln { stmts: vec!["foo(1);".into()], cms: vec![Cm { style: Style::Line, dir: format!("{MARK}: N1") }], ..Default::default() },
       ],
       active: vec![0, 3],
+      sf: false,
     };
-    report(o, &l, c, "lean-witness");
-    total += 1;
+    report(o, &l, c.clone(), "lean-witness");
+    report(o, &l, OCase { sf: true, ..c }, "lean-witness");
+    total += 2;
+    // fixable and non-fixable rules on one governed line, fixes separated: the suppressed findings of
+    // both kinds must stay silent (in `matches` AND in `diffs`) and their comment must count as used
+    for own in [true, false] {
+      let cm = Cm { style: Style::Line, dir: format!("{MARK}: no_bar, no-foo") };
+      let lines = if own {
+        vec![
+          Ln { cms: vec![cm], ..Default::default() },
+          Ln { stmts: vec!["foo(bar(3));".into()], ..Default::default() },
+          Ln { stmts: vec!["bar(2);".into()], cms: vec![Cm { style: Style::Line, dir: format!("{MARK}: N1") }], ..Default::default() },
+        ]
+      } else {
+        vec![
+          Ln { stmts: vec!["foo(bar(3));".into()], cms: vec![cm], ..Default::default() },
+          Ln { stmts: vec!["bar(2);".into()], cms: vec![Cm { style: Style::Line, dir: format!("{MARK}: N1") }], ..Default::default() },
+        ]
+      };
+      report(o, &l, OCase { lines, active: vec![0, 1, 2, 3], sf: true }, "separate-fix-witness");
+      total += 1;
+    }
   }
   for (li, l) in langs().iter().enumerate() {
     let mut n_lang = 0usize;
     let mut cases: Vec<OCase> = vec![];
     for (k, prog) in systematic_programs(l, &small, li + 5).into_iter().enumerate() {
-      cases.push(OCase { lines: prog, active: subs[(k * 5 + li) % subs.len()].clone() });
+      let active = subs[(k * 5 + li) % subs.len()].clone();
+      // the property is evaluated for both values of `separate_fix`
+      cases.push(OCase { lines: prog.clone(), active: active.clone(), sf: false });
+      cases.push(OCase { lines: prog, active, sf: true });
     }
     let n = if ctx.thorough { 20_000 } else { 800 };
     for _ in 0..n {
-      cases.push(OCase { lines: random_program(l, rng, &all, true), active: subs[rng.below(subs.len())].clone() });
+      let c = OCase { lines: random_program(l, rng, &all, true), active: subs[rng.below(subs.len())].clone(), sf: false };
+      cases.push(c.clone());
+      cases.push(OCase { sf: true, ..c });
     }
     // failures are reported once per minimised source
     let mut seen: std::collections::BTreeSet<String> = Default::default();
@@ -1132,7 +1212,7 @@ pub fn oracle(ctx: &Ctx, rng: &mut Rng, o: &mut Out) {
       if check_case(l, &c).is_some() {
         let m = minimise(l, c);
         let (src, _) = render(l, &m.lines);
-        let key = format!("{src}\u{0}{:?}", m.active);
+        let key = format!("{src}\u{0}{:?}\u{0}{}", m.active, m.sf);
         if seen.insert(key) {
           report(o, l, m, "generated");
         }
@@ -1142,25 +1222,306 @@ pub fn oracle(ctx: &Ctx, rng: &mut Rng, o: &mut Out) {
     o.oracle("suppress-spec-lang-done", true, json!({"lang": l.name, "cases": n_lang}));
   }
   let _ = total;
+  let t0 = std::time::Instant::now();
+  update_all_family(ctx, rng, o);
+  eprintln!("c14_oracle: update-all family {:.1}s", t0.elapsed().as_secs_f64());
 }
 
 fn report(o: &mut Out, l: &LangSpec, c: OCase, origin: &str) {
   if let Some((want, got, src, placed)) = check_case(l, &c) {
     let rules = load_rules(l, &c.active);
     let grep = l.lang.ast_grep(&src);
-    let cls = classes(l, &grep, &rules, &placed);
+    let cls = classes(l, &grep, &rules, &placed, c.sf);
     let fp = if cls.is_empty() { format!("suppress unclassified lang={}", l.name) } else { format!("suppress {}", cls.join("+")) };
     let ids: Vec<&str> = c.active.iter().map(|&k| l.rules[k].0).collect();
     o.oracle(
       "suppress-spec",
       false,
-      json!({"fp": fp, "origin": origin, "lang": l.name, "src": src, "rules": ids,
-        "expected": {"reported": want.reported, "unused": want.unused},
-        "actual": match got { Ok(g) => json!({"reported": g.reported, "unused": g.unused}), Err(e) => json!(e) }}),
+      json!({"fp": fp, "origin": origin, "lang": l.name, "src": src, "rules": ids, "separate_fix": c.sf,
+        "expected": {"reported": want.reported, "in_diffs": want.diffs, "unused": want.unused},
+        "actual": match got { Ok(g) => json!({"reported": g.reported, "in_diffs": g.diffs, "unused": g.unused}), Err(e) => json!(e) }}),
     );
   } else {
     o.oracle("suppress-spec", true, json!({"origin": origin, "cases": 1}));
   }
+}
+
+// ---------------------------------------------------------------------------------------
+// oracle, end to end: `scan --update-all` on a temp copy.  Suppressed findings of fixable rules
+// must not be rewritten and the comments that silence them must survive; findings that are not
+// suppressed are rewritten; suppression comments that silence nothing are removed (the
+// unused-suppression rule's fix is the empty string).
+// ---------------------------------------------------------------------------------------
+
+/// programs of the `-U` family: single-line statements, at most one comment per line, only the
+/// directive forms and comment syntaxes on which the plain scan has no recorded finding
+fn update_program(l: &LangSpec, rng: &mut Rng) -> Vec<Ln> {
+  let dirs: Vec<String> = if l.line.is_some() {
+    vec![
+      MARK.to_string(),
+      format!("{MARK}: {}", IDS[0]),
+      format!("{MARK}: {}", IDS[1]),
+      format!("{MARK}: {}", IDS[3]),
+      format!("{MARK}: {}, {}", IDS[1], IDS[3]),
+      format!("{MARK}: {}, {}", IDS[0], IDS[2]),
+      format!("{MARK}: unknown-rule"),
+      "plain remark".to_string(),
+    ]
+  } else {
+    vec![MARK.to_string(), MARK.to_string(), "plain remark".to_string()]
+  };
+  let style = if l.line.is_some() { Style::Line } else { Style::Block };
+  let n = 2 + rng.below(6);
+  let mut lines = vec![];
+  for _ in 0..n {
+    let mut ln = Ln::default();
+    let n_stmts = if rng.chance(1, 5) { 2 } else { 1 };
+    match rng.below(10) {
+      0 => {}
+      1..=3 => ln.stmts = (0..n_stmts).map(|_| rng.pick(l.stmts).to_string()).collect(),
+      4..=6 => {
+        ln.stmts = (0..n_stmts).map(|_| rng.pick(l.stmts).to_string()).collect();
+        ln.cms = vec![Cm { style, dir: rng.pick(&dirs).clone() }];
+      }
+      _ => ln.cms = vec![Cm { style, dir: rng.pick(&dirs).clone() }],
+    }
+    lines.push(ln);
+  }
+  lines
+}
+
+/// what the property text demands of one line of the rewritten file
+#[derive(Default, Clone)]
+struct LineDuty {
+  /// input classes of the line
+  classes: Vec<&'static str>,
+  /// every fixable finding of the line is suppressed and its comment (if any) is used or no suppression
+  must_stay: bool,
+  /// a comment that must still be there / must be gone
+  comment_survives: Option<String>,
+  comment_removed: Option<String>,
+  /// an un-suppressed finding whose fix changes the text
+  must_change: bool,
+}
+
+fn line_duties(l: &LangSpec, src: &str, lines: &[Ln], placed: &[Placed]) -> Vec<LineDuty> {
+  let rules = cached_rules(l, &[0, 1, 2, 3]);
+  let grep = l.lang.ast_grep(src);
+  let sup: Vec<&Placed> = placed.iter().filter(|c| c.content.contains(MARK)).collect();
+  let gov = |c: &Placed| if c.own_line { c.line + 1 } else { c.line };
+  let names = |c: &Placed, id: &str| spec_ids(&c.content).map_or(true, |v| v.iter().any(|x| x == id));
+  let mut duties = vec![LineDuty { must_stay: true, ..Default::default() }; lines.len()];
+  let mut used = vec![false; sup.len()];
+  for r in rules.iter() {
+    for nm in grep.root().find_all(&r.matcher) {
+      let line = nm.start_pos().line();
+      let mut by: Option<&Placed> = None;
+      for (k, c) in sup.iter().enumerate() {
+        if gov(c) == line && names(c, &r.id) {
+          used[k] = true;
+          by = Some(*c);
+        }
+      }
+      if r.fix.is_none() || line >= duties.len() {
+        continue;
+      }
+      let d = &mut duties[line];
+      match by {
+        Some(c) => d.classes.push(if c.own_line { "suppressed-fixable-finding-own-line" } else { "suppressed-fixable-finding-trailing" }),
+        None => {
+          d.must_stay = false;
+          d.classes.push("unsuppressed-fixable-finding");
+          // `bar(…)` → `qux(…)`, a rule set → `z {}`: the fix of the second rule always changes the text
+          if r.id == IDS[1] {
+            d.must_change = true;
+          }
+        }
+      }
+    }
+  }
+  for (k, c) in sup.iter().enumerate() {
+    let d = &mut duties[c.line];
+    let text = render_cm(l, &Cm { style: c.style, dir: c.content.clone() });
+    if used[k] {
+      d.classes.push(if c.own_line { "used-comment-own-line" } else { "used-comment-trailing" });
+      d.comment_survives = Some(text);
+    } else {
+      d.classes.push(if c.own_line { "unused-comment-own-line" } else { "unused-comment-trailing" });
+      d.must_stay = false;
+      d.must_change = true;
+      d.comment_removed = Some(text);
+    }
+  }
+  for d in &mut duties {
+    d.classes.sort();
+    d.classes.dedup();
+  }
+  duties
+}
+
+/// first line of `out` that violates its duty: (line, what)
+fn update_violation(src: &str, out: &str, duties: &[LineDuty]) -> Option<(usize, String)> {
+  let a: Vec<&str> = src.split('\n').collect();
+  let b: Vec<&str> = out.split('\n').collect();
+  if a.len() != b.len() {
+    return Some((usize::MAX, format!("line count {} -> {}", a.len(), b.len())));
+  }
+  for (i, d) in duties.iter().enumerate() {
+    if let Some(c) = &d.comment_survives {
+      if !b[i].contains(c.as_str()) {
+        return Some((i, "a suppression comment that silences a finding was removed".into()));
+      }
+    }
+    if d.must_stay && a[i] != b[i] {
+      return Some((i, "a line whose fixable findings are all suppressed was rewritten".into()));
+    }
+    if let Some(c) = &d.comment_removed {
+      if b[i].contains(c.as_str()) {
+        return Some((i, "a suppression comment that silences nothing was kept".into()));
+      }
+    }
+    if d.must_change && a[i] == b[i] {
+      return Some((i, "a line with an un-suppressed fixable finding / unused suppression was not rewritten".into()));
+    }
+  }
+  None
+}
+
+/// `agv-sg scan --update-all` in `dir`; outcome string on failure
+fn run_update_all(dir: &std::path::Path, timeout_s: u64) -> Result<(), String> {
+  let out = std::process::Command::new("timeout")
+    .arg(timeout_s.to_string())
+    .arg(agv_sg())
+    .arg("scan")
+    .arg("--update-all")
+    .current_dir(dir)
+    .output()
+    .map_err(|e| format!("spawn:{e}"))?;
+  match out.status.code() {
+    Some(0) => Ok(()),
+    Some(124) => Err("hang".into()),
+    Some(c) => Err(format!("exit:{c}")),
+    None => Err("signal".into()),
+  }
+}
+
+/// one file through its own project: the rewritten text
+fn update_one(l: &LangSpec, src: &str) -> Result<String, String> {
+  let name = format!("one.{}", l.ext);
+  let dir = cli_project(&[lang_by_name(l.name).unwrap()], &[0, 1, 2, 3], &[(name.clone(), src.to_string())]);
+  run_update_all(dir.path(), 60)?;
+  std::fs::read_to_string(dir.path().join(&name)).map_err(|e| format!("read:{e}"))
+}
+
+fn update_all_family(ctx: &Ctx, rng: &mut Rng, o: &mut Out) {
+  let ls: Vec<LangSpec> = langs().into_iter().filter(|l| l.lang != SupportLang::Lua).collect();
+  let per_lang = if ctx.thorough { 1200 } else { 150 };
+  let mut progs: Vec<(usize, Vec<Ln>)> = vec![];
+  // witnesses first: a fixable rule silenced from above / from the end of the line, next to a
+  // non-fixable one, an un-suppressed finding and an unused comment
+  let js = ls.iter().position(|l| l.name == "JavaScript").unwrap();
+  let line = |stmts: &[&str], dir: Option<&str>| Ln {
+    stmts: stmts.iter().map(|s| s.to_string()).collect(),
+    cms: dir.map(|d| vec![Cm { style: Style::Line, dir: d.to_string() }]).unwrap_or_default(),
+    ..Default::default()
+  };
+  progs.push((js, vec![
+    line(&[], Some(&format!("{MARK}: no_bar"))),
+    line(&["bar(2);"], None),
+    line(&["bar(2);"], Some(&format!("{MARK}: no_bar, N1"))),
+    line(&["foo(bar(3));"], Some(MARK)),
+    line(&["bar(2);"], None),
+    line(&[], Some(&format!("{MARK}: no-foo"))),
+    line(&["bar(2);"], None),
+  ]));
+  for (li, l) in ls.iter().enumerate() {
+    for _ in 0..per_lang {
+      progs.push((li, update_program(l, rng)));
+    }
+  }
+  let mut files: Vec<(String, String)> = vec![];
+  let mut meta = vec![];
+  for (k, (li, prog)) in progs.iter().enumerate() {
+    let l = &ls[*li];
+    let (src, placed) = render(l, prog);
+    files.push((format!("u{k:05}.{}", l.ext), src.clone()));
+    meta.push((*li, src, placed));
+  }
+  let dir = cli_project(&ls, &[0, 1, 2, 3], &files);
+  if let Err(e) = run_update_all(dir.path(), if ctx.thorough { 900 } else { 180 }) {
+    o.oracle("suppress-update-all", false, json!({"fp": format!("suppress update-all cli {e}"), "outcome": e}));
+    return;
+  }
+  // per fingerprint keep the smallest failing program, then shrink it line by line through the CLI
+  let mut worst: BTreeMap<String, (usize, usize)> = BTreeMap::new(); // fp -> (prog index, size)
+  let mut fails = 0usize;
+  let fp_of = |duties: &[LineDuty], at: usize| -> String {
+    if at == usize::MAX {
+      "suppress update-all line-count".to_string()
+    } else {
+      format!("suppress update-all {}", duties[at].classes.join("+"))
+    }
+  };
+  for (k, (li, src, placed)) in meta.iter().enumerate() {
+    let l = &ls[*li];
+    let out = std::fs::read_to_string(dir.path().join(&files[k].0)).unwrap_or_default();
+    let duties = line_duties(l, src, &progs[k].1, placed);
+    if let Some((at, _)) = update_violation(src, &out, &duties) {
+      fails += 1;
+      let fp = fp_of(&duties, at);
+      let size = src.len();
+      if worst.get(&fp).map_or(true, |(_, s)| size < *s) {
+        worst.insert(fp, (k, size));
+      }
+    }
+  }
+  for (_, (k, _)) in worst {
+    let l = &ls[meta[k].0];
+    let mut prog = progs[k].1.clone();
+    let mut budget = 40;
+    let fails_now = |prog: &[Ln]| -> Option<(String, String, usize, String, Vec<LineDuty>)> {
+      let (src, placed) = render(l, prog);
+      let out = update_one(l, &src).ok()?;
+      let duties = line_duties(l, &src, prog, &placed);
+      let (at, what) = update_violation(&src, &out, &duties)?;
+      Some((src, out, at, what, duties))
+    };
+    let mut i = 0;
+    while i < prog.len() && budget > 0 {
+      let mut t = prog.clone();
+      t.remove(i);
+      budget -= 1;
+      if fails_now(&t).is_some() {
+        prog = t;
+      } else {
+        i += 1;
+      }
+    }
+    match fails_now(&prog) {
+      Some((src, out, at, what, duties)) => {
+        let fp = fp_of(&duties, at);
+        o.oracle(
+          "suppress-update-all",
+          false,
+          json!({"fp": fp, "lang": l.name, "src": src, "rewritten": out, "line": if at == usize::MAX { Value::Null } else { json!(at) },
+            "violation": what, "rules": IDS, "cmd": "agv-sg scan --update-all (project: all four rules)"}),
+        );
+      }
+      None => {
+        // the failure needs the other files of the project: report the un-minimised case
+        let (li, src, placed) = &meta[k];
+        let out = std::fs::read_to_string(dir.path().join(&files[k].0)).unwrap_or_default();
+        let duties = line_duties(&ls[*li], src, &progs[k].1, placed);
+        let (at, what) = update_violation(src, &out, &duties).unwrap();
+        o.oracle(
+          "suppress-update-all",
+          false,
+          json!({"fp": fp_of(&duties, at), "lang": ls[*li].name, "src": src, "rewritten": out, "violation": what, "minimised": false}),
+        );
+      }
+    }
+  }
+  o.oracle("suppress-update-all-done", true, json!({"cases": meta.len(), "failing_files": fails}));
 }
 
 // ---------------------------------------------------------------------------------------
